@@ -154,6 +154,16 @@ class FnRecord:
     lost_sites: list = field(default_factory=list)   # labelled site assertions that could not be placed
 
 @dataclass
+class ConstRecord:
+    module: str
+    name: str
+    out_start: int = 0
+    out_end: int = 0
+    line_start: int = 0
+    line_end: int = 0
+    external: str = ''      # non-empty: emitted `#[verifier::external]` (Verus' front end rejected its initialiser); reason
+
+@dataclass
 class GenResult:
     text: str
     fns: list
@@ -162,6 +172,8 @@ class GenResult:
     dropped: list          # human readable list of dropped items
     modules: list
     trusted_scan: list     # occurrences of external_body / assume_specification / admit / assume
+    consts: list = field(default_factory=list)       # ConstRecord per emitted const item (line ranges; `external`: left out of verification)
+    lost_value_clauses: list = field(default_factory=list)   # constants whose reference-value clause could not be stated (external const)
 
 class Extractor:
     def __init__(self, repo, spec_dir, unit, usize_bytes=8, canary=False, only_props=None, force_external=None, target_endian='little', only_ensures=None):
@@ -174,6 +186,7 @@ class Extractor:
         self.target_endian = target_endian   # cfg(target_endian) is evaluated for this value (the host is little-endian)
         self.canary = canary
         self.fns = []
+        self.consts = []
         self.clauses = {}
         self.rules_used = {}
         self.dropped = []
@@ -1127,7 +1140,8 @@ class Extractor:
                 ts = [t.text for t in toks[it.head:it.end] if t.kind not in ('ws', 'comment')]
                 # const NAME : TYPE = ...
                 if len(ts) > 4 and ts[2] == ':' and ts[3] in INT_SIZES or (len(ts) > 4 and ts[3] == 'usize'):
-                    if it.name in ref: names.append(it.name)
+                    if it.name in ref and not self.force_external.get((mod, 'const ' + it.name)): names.append(it.name)
+                    elif it.name in ref: self.lost_value_clauses = getattr(self, 'lost_value_clauses', []) + [it.name]
         out = ['// G4: every exported integer constant that glibc <elf.h> / LLVM BinaryFormat define (consistently) has that value',
                'pub mod abi_values {', 'use vstd::prelude::*;', 'use crate::%s::*;' % mod]
         mod = 'abi_values'
@@ -1272,6 +1286,16 @@ class Extractor:
                     t2 = re.sub(r'^((?:pub(?:\([a-z]+\))?\s+)?const\s+\w+\s*:\s*)&\s*(\[u8\]|str)', r"\1&'static \2", t.lstrip(), count=1, flags=re.S)
                     if t2 != t.lstrip():
                         self.rule('R3'); t = t2
+                    crec = ConstRecord(mod, it.name)
+                    why = self.force_external.get((mod, 'const ' + it.name))
+                    if why:
+                        # the front end rejected the initialiser (e.g. a call of a private const fn): the item stays in the
+                        # text for rustc but is left out of verification; a reference-value clause for it is lost (undecided)
+                        crec.external = why; t = '#[verifier::external] ' + t.lstrip()
+                        self.dropped.append('%s: const %s left out of verification (#[verifier::external]): %s' % (mod, it.name, why))
+                    self.consts.append(crec)
+                    out.append(('raw', crec, '\n' + t + '\n'))       # on lines of its own: a diagnostic's line identifies the item
+                    continue
                 out.append(('raw', None, t + '\n'))
         for f in fnspecs:
             if (mod, f) not in self.used_fn_specs and not fnspecs[f].get('optional'):
@@ -1339,6 +1363,9 @@ class Extractor:
         for rec in self.fns:
             rec.line_start = li(rec.out_start)
             rec.line_end = li(max(rec.out_start, rec.out_end - 1))
+        for rec in self.consts:
+            rec.line_start = li(rec.out_start)
+            rec.line_end = li(max(rec.out_start, rec.out_end - 1))
         # vacuity guard: a precondition on a public entry point would make "for all inputs" claims vacuous there.
         # Allowed: the documented exceptions listed in units.toml ([allow_public_requires]), nothing else.
         allowed = self.spec.units.get('allow_public_requires', {}).get('fns', [])
@@ -1348,7 +1375,8 @@ class Extractor:
         scan = []
         for m in re.finditer(r'external_body|assume_specification|admit\s*\(|assume\s*\(|external_type_specification|external_trait_specification|\buninterp\b', full):
             scan.append((li(m.start()), m.group(0)))
-        return GenResult(full, self.fns, self.clauses, self.rules_used, self.dropped, list(mods) + getattr(self, 'extra_modules', []), scan)
+        return GenResult(full, self.fns, self.clauses, self.rules_used, self.dropped, list(mods) + getattr(self, 'extra_modules', []), scan,
+                         consts=self.consts, lost_value_clauses=getattr(self, 'lost_value_clauses', []))
 
 def strip_ghost(text):
     out = []
